@@ -183,7 +183,9 @@ func (env *Env) resolveType(e ast.Expr) types.Type {
 	case *ast.SelectorExpr:
 		if id, ok := e.X.(*ast.Ident); ok && env.pkg != nil {
 			for _, imp := range env.pkg.Imports() {
-				if imp.Name() == id.Name {
+				// by declared package name, or by the last element of the import path (the usual local alias of
+				// generated packages whose declared name differs, e.g. sdcpb)
+				if imp.Name() == id.Name || pathBase(imp.Path()) == id.Name {
 					if o := imp.Scope().Lookup(e.Sel.Name); o != nil {
 						return o.Type()
 					}
@@ -1344,6 +1346,20 @@ func (g *Gen) modCompByShape(c *Contract, m *Clause, comps map[string]bool) bool
 		return false
 	}
 	ok := true
+	// whatever the throw-away evaluation emits (type facts about its symbolic parameters) is discarded
+	bodyLen := g.body.Len()
+	declared := make(map[string]bool, len(g.declared))
+	for k, v := range g.declared {
+		declared[k] = v
+	}
+	defer func() {
+		if g.body.Len() != bodyLen {
+			txt := g.body.String()[:bodyLen]
+			g.body.Reset()
+			g.body.WriteString(txt)
+			g.declared = declared
+		}
+	}()
 	func() {
 		defer func() {
 			if r := recover(); r != nil {
@@ -1547,4 +1563,11 @@ func rangedSlice(phi *ssa.Phi) ssa.Value {
 		}
 	}
 	return nil
+}
+
+func pathBase(p string) string {
+	if i := strings.LastIndex(p, "/"); i >= 0 {
+		return p[i+1:]
+	}
+	return p
 }
